@@ -659,7 +659,7 @@ def resolve_kwdefaults(sign: inspect.Signature) -> Dict[str, Any]:
 
     # Add to the defaults all the values that are needed by the contracts.
     for param in sign.parameters.values():
-        if param.default != inspect.Parameter.empty:
+        if param.default is not inspect.Parameter.empty:
             kwdefaults[param.name] = param.default
 
     return kwdefaults
